@@ -32,6 +32,10 @@ SPEC = {
             "vs model and embed(matrix) at the NEW values; "
             "plus VectorState states split into 65/100/129/200 ranges (63..257 thorough; n=1..3) through apply_gate (vsapplym), apply_unary_gate_all (vsunarym) and apply_conditional_gate; "
             "plus Loop terms with 17/20/33/64 iterations (15..100 thorough) alone, under C, inside Composite, Kron and an outer Loop on every route; "
+            "plus every matrix route (apply_mat, apply_mat_slice, apply_gate_mat_slice) on matrices stored column-major, transposed-owned, reversed-axes, "
+            "strided rows/columns, negative stride (9 layouts, 2-4 columns) for 1-4-qubit primitives/C/Kron/Composite/Loop in every operand order for n<=3 (sampled n=4); "
+            "plus every parametrised gate at special angles (k*pi/2 for |k|<=16, 2pi..100pi literals, +-0, 1e-8..5e-324, 2*pi*k +- 1e-8 / 1 ulp), plain and inside "
+            "C/CC/Kron/Composite/Loop (Loops of 10^3 iterations for tiny angles; 10^5 thorough) on every route with superposed states; "
             "gates::bit_permutation for every tuple (n<=5 quick, n<=6 thorough); plus a malformed stream "
             "(row counts that are not a multiple of 2^k, wrong arity, repeated and out-of-range qubits, wrong state size; panics caught). "
             "(A) implementation vs Lean model route to 1e-12; (B) implementation vs embed(n, bits, matrix())*v to 1e-9, "
